@@ -50,11 +50,17 @@ def extra(case, lines, rot):
     exp, exp_idx, exp_exec = [], [], []
     expanded = [t.expandtabs() for t in lines]
     common_indent = min([len(t) - len(t.lstrip(' ')) for t in expanded if t.strip()] or [0])
+    chunk_ind = {}
+    for p in case['parts']:
+        if p[0] == 'code':
+            for j in list(range(p[1], p[2] + 1)) + list(range(p[3], p[4] + 1)):
+                chunk_ind[j] = case['lines'][p[1] - 1][1]          # a chunk is de-indented by the indentation of its source
     for j, ((k, ind, sid), lab, t) in enumerate(zip(case['lines'], case['labels'], lines), 1):
         if lab == 'text':
             continue
         body = t.expandtabs()[common_indent:]
-        body = body[4 * ind:] if body[:4 * ind].strip() == '' else body.lstrip()
+        ci = chunk_ind.get(j, ind)
+        body = body[4 * ci:] if body[:4 * ci].strip() == '' else body.lstrip()
         if k == 'raw':
             body = '... ' + body
         exp.append(body)
@@ -64,11 +70,11 @@ def extra(case, lines, rot):
     if not exp:
         return []
     got = dt.format_src(linenos=False, colored=False, want=True, prefix=True).split('\n')
-    if [g.rstrip() for g in got] != [e.rstrip() for e in exp]:
+    if got != exp:                      # exact, trailing blanks included
         bad.append(('format_src(prompts,wants)', exp, got))
     got2 = dt.format_src(linenos=False, colored=False, want=False, prefix=False).split('\n')
     # a bare "..." terminator is an empty executable line; without prompts it has no text to show
-    if [g.rstrip() for g in got2 if g.strip()] != [e.rstrip() for e in exp_exec if e.strip()] and exp_exec:
+    if [g for g in got2 if g.strip()] != [e for e in exp_exec if e.strip()] and exp_exec:
         bad.append(('format_src(no prompts,no wants)', exp_exec, got2))
     # numbers
     for offset in (False, True):
@@ -108,6 +114,7 @@ def sig(info):
 def run(tier):
     out = common.Outcome('C18', tier)
     parselib.self_check_templates()
+    parselib._JOB['outcome_only_when_f11'] = True       # docstrings with the known finding F11 are the business of C13/C01
     out.rule = 'every docstring of <= N building blocks over C01_Blocks in DocParse.tla with the second (re-parse) round; replay of the finished docstrings (sampled where stated)'
     # spec level: the second round
     n = 3
